@@ -87,5 +87,34 @@ pub fn corner_projects() -> Vec<(String, Project, Vec<&'static str>)> {
         let src = b"TXTPP#tag EXTRA\nTXTPP#include empty_inc.txt\n# TXTPP#write generated\nbefore EXTRA after\n".to_vec();
         v.push(("tag-captures-empty-output".to_string(), proj(vec![("te.txt.txtpp", src), ("empty_inc.txt", vec![])], vec!["te.txt.txtpp"], vec![], "tag-empty-output"), vec!["build"]));
     }
+    // 11. tags created after a dependency directive: in the first pass (collect mode) nothing after the dependency is
+    //     executed - no tag is created, stored or missed there
+    {
+        let page = b"TXTPP#tag TITLE\n-TXTPP#write the title\nTXTPP#include hdr.txt\nTXTPP#tag AUTHOR\n-TXTPP#write somebody\nTXTPP#tag TITLE2\n-TXTPP#write again\nTITLE by AUTHOR (TITLE2)\nTXTPP#\nend\n".to_vec();
+        v.push(("tags-after-a-dependency".to_string(), proj(vec![("page.txt.txtpp", page), ("hdr.txt.txtpp", b"header\n".to_vec())], vec!["page.txt.txtpp", "hdr.txt.txtpp"], vec![], "tags-after-dependency"), vec!["build", "needed"]));
+    }
+    // 12. a command that reads the file's own output path while it is being rebuilt over a longer old output: the build
+    //     has truncated it (only-if-needed has not: there the old content is seen - both as the model says)
+    {
+        let src = b"first\n# TXTPP#run cat own.txt\nlast\n".to_vec();
+        v.push((
+            "command-reads-own-output".to_string(),
+            proj(vec![("own.txt.txtpp", src), ("own.txt", b"OLD1\nOLD2\nOLD3\nOLD4\n".to_vec())], vec!["own.txt.txtpp"], vec![("cat own.txt".to_string(), vec![Act { kind: "cat", arg: "own.txt".into() }])], "reads-own-output"),
+            vec!["build"],
+        ));
+    }
+    // 13. two dependencies, the directives with the same prefix, an empty (multi-line capable) directive and a plain line
+    //     between them; only the includer is requested, the outputs of the dependencies are stale on disk
+    {
+        let a = b"top\n// TXTPP#include d1.txt\n// TXTPP#\nbetween\n// TXTPP#include d2.txt\n// TXTPP#run true\nplain again\n// TXTPP#after d3.txt\nbottom\n".to_vec();
+        let mut p = proj(
+            vec![("a.txt.txtpp", a), ("d1.txt.txtpp", b"one\n".to_vec()), ("d2.txt.txtpp", b"two\n".to_vec()), ("d3.txt.txtpp", b"three\n".to_vec()), ("d1.txt", b"STALE1\n".to_vec()), ("d2.txt", b"STALE2\n".to_vec())],
+            vec!["a.txt.txtpp", "d1.txt.txtpp", "d2.txt.txtpp", "d3.txt.txtpp"],
+            vec![("true".to_string(), vec![Act { kind: "true", arg: String::new() }])],
+            "same-prefix-dependencies",
+        );
+        p.sig.push("inputs:a.txt".to_string());
+        v.push(("same-prefix-dependencies-single-target".to_string(), p, vec!["build", "needed"]));
+    }
     v
 }
